@@ -126,6 +126,9 @@ class PublishRules(Rule):
             L.violate("C13", "T1", "%s:%s:%s" % (op.type, "settled" if rq is not None else "unattributable", d.kind),
                       "%s id %r written (dispatch %s) but %s" % (op.type, (op.pkt or {}).get("id"), d.kind,
                       ("request rid=%d was already %s" % (rq.rid, rq.end_why)) if rq is not None else "no request owns it"))
+            if rq is not None and rq.kind == "publish" and rq.qos == 2 and op.type in ("PUBLISH", "PUBREL") and rq.ack2 is not None:
+                L.violate("C09", "Q2", "%s-after-PUBCOMP:%s" % (op.type, d.kind),
+                          "%s id %r written (dispatch %s) after PUBCOMP had ended that exchange" % (op.type, rq.msgId, d.kind))
         # ---- C11 L2 (here because attribution lives here): nothing of a dead session is written
         for op in d.writes:
             rq = op.req
@@ -315,6 +318,8 @@ class RetxRules(Rule):
         if op.type == "PUBLISH":
             if not p.get("dup"):
                 L.violate("C08", "R3", "repeat-PUBLISH-nodup", "repeat of PUBLISH id %r without DUP" % rq.msgId)
+                L.violate("C02", "W2", "repeat-PUBLISH-nodup", "re-delivered PUBLISH id %r (QoS %s) does not carry DUP=1 [MQTT-3.3.1-1]"
+                          % (rq.msgId, rq.qos))
                 L.violate("C12", "M2", "resume-nodup", "repeat of PUBLISH id %r without DUP" % rq.msgId)
         else:
             if c.version == rc.V31 and not p.get("dup"):
